@@ -43,8 +43,10 @@ def model_run(model, argv):
     parts = r.split(" ")
     if parts[0] == "exit":
         errs = [unhx(x) for x in parts[4].split(",")] if len(parts) > 4 and parts[4] else []
-        return {"kind": "exit", "status": int(parts[1]), "out": unhx(parts[2]), "inexact": parts[3][0] == "1",
-                "unordered": parts[3][1] == "1", "errs": errs}
+        flags = parts[3].split(":")
+        ties = [int(x) for x in flags[1].split(",")] if len(flags) > 1 and flags[1] else []
+        return {"kind": "exit", "status": int(parts[1]), "out": unhx(parts[2]), "inexact": flags[0] == "1",
+                "ties": ties, "unordered": bool(ties), "errs": errs}
     if parts[0] == "unsupported":
         return {"kind": "unsupported", "why": " ".join(parts[1:])}
     return {"kind": "error", "raw": r[:200]}
@@ -85,11 +87,11 @@ def split_rows(out, fmt, ncols=None):
     """rows of an output stream (used to compare outputs whose row order is unspecified)"""
     if fmt == "json":
         try:
-            return sorted(json.dumps(r, sort_keys=True) for r in json.loads(out.decode("utf-8")))
+            return [json.dumps(r, sort_keys=True) for r in json.loads(out.decode("utf-8"))]
         except Exception:
             return None
     if fmt == "html":
-        return sorted(re.findall(rb"<tr>.*?</tr>", out, re.S))
+        return re.findall(rb"<tr>.*?</tr>", out, re.S)
     if fmt in ("list", "lines"):
         if not ncols:
             return None
@@ -99,8 +101,9 @@ def split_rows(out, fmt, ncols=None):
             vals = vals[:-1]
         if len(vals) % ncols != 0:
             return None
-        return sorted(sep.join(vals[i:i + ncols]) for i in range(0, len(vals), ncols))
-    return sorted(out.split(b"\n"))
+        return [sep.join(vals[i:i + ncols]) for i in range(0, len(vals), ncols)]
+    rows = out.split(b"\n")
+    return rows[:-1] if rows and rows[-1] == b"" else rows
 
 
 def compare(model_res, impl, fmt="tabs", ncols=None):
@@ -118,21 +121,21 @@ def compare(model_res, impl, fmt="tabs", ncols=None):
         ok = False
         if model_res["unordered"]:
             a, b = split_rows(mo, fmt, ncols), split_rows(io, fmt, ncols)
-            if a is not None and b is not None:
-                if a == b:
-                    ok = True
-                elif model_res["inexact"] and len(a) == len(b):
-                    ka = [x if isinstance(x, bytes) else x.encode() for x in a]
-                    kb = [x if isinstance(x, bytes) else x.encode() for x in b]
-                    ok = True
+            if a is not None and b is not None and len(a) == len(b) == sum(model_res["ties"]):
+                ok = True
+                pos = 0
+                for run in model_res["ties"]:
+                    ka = [x if isinstance(x, bytes) else x.encode() for x in a[pos:pos + run]]
+                    kb = [x if isinstance(x, bytes) else x.encode() for x in b[pos:pos + run]]
+                    pos += run
                     for x in ka:
-                        hit = next((j for j, y in enumerate(kb) if approx_equal(x, y)), None)
+                        hit = next((j for j, y in enumerate(kb) if (x == y or (model_res["inexact"] and approx_equal(x, y)))), None)
                         if hit is None:
                             ok = False
                             break
                         kb.pop(hit)
-            else:
-                ok = sorted(mo) == sorted(io)   # same bytes in some order (weak, for list/lines)
+                    if not ok:
+                        break
         elif model_res["inexact"]:
             ok = approx_equal(mo, io)
         if not ok:
